@@ -36,3 +36,10 @@ CHECKS["C05"] = dict(
     design_ref="DESIGN.md 3 C05",
     note="Page store stubbed to 'absent' in the totality harness; functions behind network/clock/dateparser are excluded (listed in evidence); floats are reals in CrossHair; replays go through Wtp.expand or call_parser_function.",
 )
+CHECKS["C09"] = dict(
+    engine="E4 havoc via CrossHair; E3 AST path encoder + z3",
+    technique="havoc harness under CrossHair: per-page context state symbolic, protocol start_page+parse/expand compared with a fresh context; z3 path query for in-place mutation of aliased module-level tables",
+    text="For ALL values of the per-page slots (flags, line counters, section/title, cookie tables, message lists, expansion path, strip-marker counters, parser stack) left behind by any earlier page, start_page followed by parse()/expand() of each catalogue document gives the fresh-context tree, messages and expansion path: confirmed over all paths. No path through Wtp.__init__ mutates a module-level table through an alias. Counterexamples are replayed by finding a real dirtying history.",
+    design_ref="DESIGN.md 3 C09",
+    note="Lua-side state is outside; assumes the begline representation invariant; documents are a fixed catalogue (10 documents x pre_expand on/off); container shapes fixed, contents symbolic.",
+)
